@@ -677,7 +677,7 @@ fn judge_multipart(s: &Scn, o: &Obs, ranges: &[(u64, u64)], if_range: bool, fram
             }
         }
         if got_cr != Some((*a, *b - 1, s.len)) {
-            v.add("C06", format!("part {idx}: Content-Range {got_cr:?}, expected bytes {}-{}/{}", a, b - 1, s.len));
+            v.add("C03/C06", format!("part {idx}: Content-Range {got_cr:?}, expected bytes {}-{}/{} (parts must be the requested ranges in request order)", a, b - 1, s.len));
             return;
         }
         let mut want: Vec<(String, String)> = if if_range {
